@@ -126,4 +126,18 @@ CHECKS = {
         level_note="Trusts harness/proj for equality. DECLINE as input of the reply builder is unjudged (RFC 8415 answers it with a Reply, the library refuses it; the statement does not decide it).",
         assumptions=["which message types are 'wrong' for the reply builder follows RFC 8415 section 18.3 (Solicit only with rapid commit; Request, Confirm, Renew, Rebind, Release, Information-request)"],
     ),
+    "C19": dict(
+        title="Domain-name label encoding round-trips and decoding follows RFC 1035",
+        stages=[dict(name="lbl", shards=S16, timeout={"quick": 900, "thorough": 3600})],
+        rule="(a) EVERY byte string over the alphabet {00,01,02,03,3f,40,'a',c0,c1} up to length 6 (quick) / 8 (thorough); (b) generated lists of 0..8 names x 1..8 labels x 1..63 arbitrary non-dot bytes (<= 255 octets): "
+             "encode -> decode and comparison of the bytes with the RFC 1035 encoding; (c) mutated encodings <= 512 bytes with inserted backward/forward/self/chained pointers, pointer fans, over-long names, truncations, "
+             "reserved label types, trailing partial names; (d) parsed sets (plain and compressed) with every kind of single edit (replace in place, append, delete, reorder, edit one name, replace the slice). "
+             "Shape = (verdict class, #names, #pointers, partial, root present, size class) / edit kind; non-trivial iff >= 2 names, a pointer, a partial name, a malformed reason or an edit.",
+        technique="differential monitor against an independent three-valued RFC 1035/4704 name decoder + encode/decode/edit round-trip oracles on the real rfc1035label package",
+        level_text="Reference says Names => the library must accept with exactly those names and an unmodified parsed set must re-encode to exactly the parsed bytes; reference says Malformed (label overrun, truncated "
+                   "pointer, name > 255 octets) => the library must fail; gray zones (reserved label types, forward/self/mid-label pointers, pointer chains) are unjudged and counted. After an edit the encoding must decode, by the reference, to the edited names.",
+        level_note="Trusts harness/reflabel (DESIGN.md Appendix C).",
+        assumptions=["names are lists of labels without '.' bytes, as the quantifier says"],
+        exhaustive_note="all byte strings over the 9-symbol alphabet up to the stated length",
+    ),
 }
